@@ -1,50 +1,19 @@
-"""per-property configuration of ./check"""
+"""per-property configuration of ./check: one file per property under tools/props/"""
+import importlib
+import os
+import sys
 
-PROPS = {
-    "C06": {
-        "module": "Dnp3.Props.C06",
-        "gen": ["Link.lean", "CrcTable.lean"],
-        "engines": ["link"],
-        "monitors": None,  # all monitors of the engine
-        "exhaustive_thorough": True,
-        "rule": "engine link: (1) format of all 256 control octets and all app lengths 0..251; (2) every payload length 0..=250 x single split points (all of them in thorough); (3) multi-frame streams under 6 chunking styles; (4) bit errors of weight 1,2,3 and heavier (thorough: every single-bit error of one frame per length); (5) discard-mode noise prefixes; (6) datagram sequences. distinct = distinct canonical op lists; every case runs the real Reader/Parser over the pipe",
-        "trusted_base": [
-            "hand-written Lean model of link/{parser,reader,format}.rs tied by differential execution (engine link)",
-            "CRC table, CRC_OF_0564 and link constants regenerated from source (Gen/Link.lean)",
-            "physical layer read contract (returns 1..=len octets) assumed; real sockets not modelled",
-        ],
-        "assumptions": ["PhysLayer::read returns between 1 and buffer.len() octets"],
-        "level_text": "Lean theorems about the link parser/reader/CRC model for all frames, payload lengths, chunkings and error patterns (parser soundness, CRC table = bit-serial CRC-16/DNP, round trip), model tied to the code by the regenerated CRC table/constants and by differential execution of the real Reader/Parser/format functions against the compiled model, with exhaustive split-point and single-bit-error engines",
-        "level_note": "trusted: Lean kernel (+ propext/Classical.choice/Quot.sound), translate.py, the correspondence harness; the Rust is modelled, not verified; physical read contract assumed",
-    },
-}
+_d = os.path.join(os.path.dirname(os.path.abspath(__file__)), "props")
+sys.path.insert(0, _d)
+PROPS = {}
+for _f in sorted(os.listdir(_d)):
+    if _f.startswith("C") and _f.endswith(".py"):
+        PROPS[_f[:-3]] = importlib.import_module(_f[:-3]).CFG
 
-PROPS["C07"] = {
-    "module": "Dnp3.Props.C07",
-    "gen": ["Link.lean"],
-    "engines": ["linkaddr"],
-    "monitors": ["acts_only_if_addressed", "broadcast_never_acked", "link_status_answered", "confirmed_once_per_toggle"],
-    "exhaustive_quick": True, "exhaustive_thorough": True,
-    "rule": "engine linkaddr: exhaustive link addressing table = 256 control octets x 7 destination classes x 4 source classes x 3 secondary states x role x self-address feature (quick: full 256 octets for every combination with a valid source or own destination, stride 5 elsewhere; thorough: all), through the real transport Reader/link Layer over the pipe; plus random confirmed-data FCB histories with resets and broadcasts",
-    "trusted_base": ["hand-written Lean transcription of Layer::process_header tied by the exhaustive table through the real Layer", "link masks/function codes/special addresses regenerated from source"],
-    "assumptions": ["application-level part (foreign master / broadcast fragments in the outstation session) is covered by the outstation engine when built"],
-    "level_text": "Lean theorems over processHeader for every control octet, address and secondary state (acts only if addressed, broadcasts never acknowledged, link status answered, confirmed data once per FCB toggle); tie: constants regenerated, exhaustive decision-table correspondence through the real link Layer",
-    "level_note": "trusted: Lean kernel, translate.py, harness; Rust modelled not verified",
-}
-PROPS["C08"] = {
-    "module": "Dnp3.Props.C08",
-    "gen": [],
-    "engines": ["transport"],
-    "monitors": ["delivered_fragment_is_contiguous_run", "well_formed_fragment_delivered_intact", "oversize_fragment_not_delivered", "writer_segments_as_specified"],
-    "exhaustive_thorough": True,
-    "rule": "engine transport: fragment lengths 1..=2048 (thorough: all x seq0 {0,1,62,63} x rx {249,250,497,498,2048}; quick: boundaries + stride 37) segmented by an independent reference segmenter and fed re-chunked to the real transport Reader; writer sequences; segment streams damaged by drop/duplicate/swap/re-address/flag-flip/broadcast-insert/interleave followed by a fresh fragment",
-    "trusted_base": ["hand-written Lean model of transport/real/{assembler,reader,writer,header,sequence}.rs tied by differential execution"],
-    "assumptions": [],
-    "level_text": "Lean theorems about the assembler/segmenter model (header octet round trip, sequence wrap, frame-id law, segment/reassemble, delivered-is-run) for all fragment lengths, sequence numbers and segment histories; tie: differential correspondence of the real Reader/Writer against the compiled model",
-    "level_note": "trusted: Lean kernel, harness; Rust modelled not verified",
-}
-
+# generator engine name -> model driver engine name (when they differ)
 ENGINE_MODEL = {"linkaddr": "transport"}
+for _c in PROPS.values():
+    ENGINE_MODEL.update(_c.get("engine_model", {}))
 
 # properties not (yet) claimed, with the reason
 NOT_APPLICABLE = {
